@@ -34,7 +34,9 @@ FUNCTIONS = ["gffutils.parser:Quoter.__missing__", "gffutils.parser:_reconstruct
 
 
 def unit_quoter(U):
-    """exhaustive char lemma on the real quoter"""
+    """exhaustive char lemma on the real quoter (the switch history runs FIRST, on a table that has not met the reserved
+    characters yet; the exhaustive pass then sees whatever that history left in the table)"""
+    quoter_after_switch(U, "C08")
     res = set(P._to_quote)
     want_res = set("\n\t\r%;=&,") | {chr(i) for i in range(32)} | {chr(127)}
     bad = []
@@ -54,7 +56,6 @@ def unit_quoter(U):
     U.prove("C08.quoter.char", "for every code point c: quoter[c] == '%%%02X' % ord(c) if c is reserved (tab LF CR % ; = & , C0 controls DEL) else c, and unquote(quoter[c]) == c   [exhaustive, 1 114 112 code points]",
             [], z3.BoolVal(not bad and res == want_res), {}, replay=lambda m: {"observed": bad[:3], "violates": bool(bad) or res != want_res})
     U.notes.append("quoter lemma: %d code points checked natively on the real parser.quoter" % n)
-    quoter_after_switch(U, "C08")
 
 
 def quoter_after_switch(U, prefix):
